@@ -1435,3 +1435,25 @@ Proof.
       rewrite (E RL mx), (E RU mn). reflexivity.
 Qed.
 End ExtTransportInstance.
+
+(* ---------- corollaries used under C07: the stand-alone problems of the builders are well formed ---------- *)
+Lemma transport_builder_wf g rg p a : transport g rg p = Some a -> rg_minor rg = None ->
+  List.length (rg_dt rg) = rg_T rg -> List.length (rg_disc rg) = rg_T rg ->
+  List.length (transport_costs g rg p) = rg_T rg -> String.eqb (tp_n1 p) (tp_n2 p) = false ->
+  wf_lp (ap_lp a) /\ Forall (fun r => m_asset r = tp_name p /\ (m_var r < nvars (ap_lp a))%nat) (ap_map a).
+Proof. intros H1 H2 H3 H4 H5 H6. destruct (transport_unit_ok g rg p a H1 H2 H3 H4 H5 H6) as (W & M & _). exact (conj W M). Qed.
+Lemma storage_builder_wf g rg p a : storage g rg p = Some a -> rg_minor rg = None -> sp_no_simult p = false -> sp_max_dur p = None ->
+  rg_T rg <> 0%nat -> List.length (rg_dt rg) = rg_T rg -> List.length (rg_disc rg) = rg_T rg ->
+  match sp_price p with Some v => List.length v = g_T g | None => True end ->
+  wf_lp (ap_lp a) /\ Forall (fun r => m_asset r = sp_name p /\ (m_var r < nvars (ap_lp a))%nat) (ap_map a).
+Proof. intros H1 H2 H3 H4 H5 H6 H7 H8. destruct (storage_unit_ok g rg p a H1 H2 H3 H4 H5 H6 H7 H8) as (W & M & _). exact (conj W M). Qed.
+Lemma contract_builder_wf g rg p a maxc minc ec : simple_contract g rg p = Some a -> rg_minor rg = None ->
+  mkvec rg (cp_max p) None true = Some maxc -> mkvec rg (cp_min p) None true = Some minc ->
+  mkvec rg (cp_extra p) (Some 0) false = Some ec ->
+  List.length maxc = rg_T rg -> List.length minc = rg_T rg -> List.length ec = rg_T rg -> List.length (rg_disc rg) = rg_T rg ->
+  (forall t, (t < rg_T rg)%nat -> 0 <= nth t ec 0) -> (forall t, (t < rg_T rg)%nat -> 0 <= nth t (rg_disc rg) 0) ->
+  wf_lp (ap_lp a) /\ Forall (fun r => m_asset r = cp_name p /\ (m_var r < nvars (ap_lp a))%nat) (ap_map a).
+Proof.
+  intros H1 H2 H3 H4 H5 H6 H7 H8 H9 H10 H11.
+  destruct (contract_unit_ok g rg p a maxc minc ec H1 H2 H3 H4 H5 H6 H7 H8 H9 H10 H11) as (W & M & _). exact (conj W M).
+Qed.
